@@ -214,3 +214,41 @@ def adversarial(seed, sizes, tag="adv"):
             if name == "many":
                 out.append(("A", "%s.%s.%d.big" % (tag, name, n), kind, 1, cfg, min(4000, n // 6 + 1), b))
     return out
+
+
+# ---- F-lines: products of header-line templates (2 or 3 consecutive lines) under every header option set
+LINE_TEMPLATES = [
+    b"A: b", b"Name:value", b"N:", b"N: ", b"N:\t v \t", b"Long-Header-Name: some value here",
+    b" A: b", b"\tA: b", b" ", b"\t ", b"  x", b" \tA:b",           # leading whitespace (fold / space-before-first)
+    b"A : b", b"A\t: b", b"A  :b", b"A b", b"A \x01: b",            # whitespace / junk before the colon
+    b": b", b"nocolon", b"@bad: v", b"A\x7f: b", b"A(: b",            # bad names
+    b"A: b\x01c", b"A: \x7f", b"A: b\x00c", b"N\x00: v", b"\x00",    # control bytes, NUL
+    b"A: b\rc", b"A\r: b", b"\rA: b",                                # CR not followed by LF
+    b"A: \xff\x80", b"A: b ", b"A:  b\t\t",                          # obs-text, trailing whitespace
+]
+EOLS = [b"\r\n", b"\n"]
+
+
+def fam_lines(seed, kinds=("q", "p", "h"), depth=2, tag="lines", cfg_stride=1):
+    out = []
+    n = 0
+    for kind in kinds:
+        cfgs = relevant_cfgs(kind)[::cfg_stride] if kind != "h" else [0]
+        hcfgs = sorted(set(c & ~(gen.CFG_MS_REQ | gen.CFG_MS_RESP) for c in cfgs))
+        for i1, l1 in enumerate(LINE_TEMPLATES):
+            for i2, l2 in enumerate(LINE_TEMPLATES):
+                thirds = [None] if depth < 3 else [None] + list(range(0, len(LINE_TEMPLATES), 5))
+                for i3 in thirds:
+                    for e, eol in enumerate(EOLS):
+                        body = l1 + eol + l2 + eol
+                        if i3 is not None:
+                            body += LINE_TEMPLATES[i3] + eol
+                        for pre_i, pre in enumerate((b"", b"X-First: 1\r\n")):
+                            for fin_i, fin in enumerate((eol, b"")):
+                                b = START[kind] + pre + body + fin
+                                for cfg in hcfgs:
+                                    cap = (4, 1, 2, 0)[n % 4] if n % 5 == 0 else 4
+                                    out.append(("A", "%s.%s.%d.%d.%s.%d%d%d.%d" % (tag, kind, i1, i2, i3, e, pre_i, fin_i, cfg),
+                                                kind, 0 if kind == "h" else 1, cfg, cap, b))
+                                    n += 1
+    return out
